@@ -177,11 +177,24 @@ Definition c11_expected (q : vmon) (o : aop papi) : option message :=
   | _, _ => None
   end.
 
+(* 43 a reply to a question carries a live PTR / SRV / TXT record that a passive listener of the provider's multicast
+   announcements does not hold: what the provider serves has not (or no longer) been announced *)
+Definition reply_unannounced (q : vmon) (o : aop papi) (m : message) : bool :=
+  match o with
+  | ADeliver mq =>
+      negb (m_response mq) &&
+      negb (forallb (fun r => (r_ttl r =? 0)%N || bs_eqb (r_name r) (Some BROWSE) ||
+                              negb ((r_type r =? 12)%N || (r_type r =? 33)%N || (r_type r =? 16)%N) ||
+                              existsb (same_data r) (map me_rec (vm_listener q))) (m_records m))
+  | _ => false
+  end.
+
 Fixpoint vmon_outs (focus : N) (q : vmon) (o : aop papi) (expect : option message) (outs : list out) : (vmon * option message) + N :=
   match outs with
   | [] => inl (q, expect)
   | OSendAll t m :: outs' =>
       if m_response m then
+        if reply_unannounced q o m && in_focus focus 43 then inr 43%N else
         match c10_response focus q t m true with inl q' => vmon_outs focus q' o expect outs' | inr c => inr c end
       else
         match is_service_probe m with
@@ -190,6 +203,7 @@ Fixpoint vmon_outs (focus : N) (q : vmon) (o : aop papi) (expect : option messag
         end
   | OSend t m :: outs' =>
       if is_host_reply m then vmon_outs focus q o expect outs' else
+      if reply_unannounced q o m && in_focus focus 43 then inr 43%N else
       match c10_response focus q t m false with
       | inr c => inr c
       | inl q' =>
